@@ -61,12 +61,64 @@ fn gen_type(r: &mut Xo, fam: u64) -> DistType {
         2 => DistType::SkewNormal { location: loc(r), scale: scale(r), shape: *r.pick(&[0.0, 1.0, -1.0, 1.0e300, -1.0e300, f64::MAX, f64::MIN, 1.0e-300]) },
         3 => DistType::LogNormal { mu: loc(r), sigma: *r.pick(&[0.0, -1.0, 1.0, 50.0, 1.0e300, f64::MAX, f64::MIN]) },
         4 => DistType::Binomial {
-            trials: *r.pick(&[0, 1, 2, 9, 10, 11, 20, 1000, 1_000_000, 999_999_999, 1_000_000_000]),
-            probability: *r.pick(&[0.0, 1.0e-9, up(1.0e-9), 1.0e-6, 0.01, 0.1, 0.3, 0.5, down(0.5), up(0.5), 0.7, 0.99, down(1.0), 1.0 - 1.0e-9, 1.0]),
+            // the last values of each list lie beyond today's validation bounds: they are sampled only
+            // if validation admits them, so a relaxed bound is probed where it now lies
+            trials: *r.pick(&[0, 1, 2, 9, 10, 11, 20, 1000, 1_000_000, 999_999_999, 1_000_000_000, 1_000_000_001, (1 << 31) - 1, 1 << 31, 1 << 40, u64::MAX]),
+            probability: *r.pick(&[
+                0.0,
+                1.0e-9,
+                up(1.0e-9),
+                1.0e-6,
+                0.01,
+                0.1,
+                0.3,
+                0.5,
+                down(0.5),
+                up(0.5),
+                0.7,
+                0.99,
+                down(1.0),
+                1.0 - 1.0e-9,
+                1.0,
+                down(1.0e-9),
+                1.0e-12,
+                1.0e-300,
+                f64::MIN_POSITIVE,
+            ]),
         },
-        5 => DistType::Geometric { probability: *r.pick(&[0.0, 1.0e-9, up(1.0e-9), 1.0e-6, 0.01, 0.5, 2.0 / 3.0, down(2.0 / 3.0), 0.9, down(1.0), 1.0]) },
+        5 => DistType::Geometric {
+            probability: *r.pick(&[0.0, 1.0e-9, up(1.0e-9), 1.0e-6, 0.01, 0.5, 2.0 / 3.0, down(2.0 / 3.0), 0.9, down(1.0), 1.0, down(1.0e-9), 1.0e-12, 1.0e-300, f64::MIN_POSITIVE]),
+        },
         6 => DistType::Pareto { scale: scale(r), shape: shape(r) },
-        7 => DistType::Poisson { lambda: *r.pick(&[f64::from_bits(1), 1.0e-300, 1.0e-9, 0.5, 1.0, 11.9, down(12.0), 12.0, up(12.0), 100.0, 1.0e6, 1.0e15, 1.0e30, 1.0e42]) },
+        7 => DistType::Poisson {
+            lambda: *r.pick(&[
+                f64::from_bits(1),
+                1.0e-300,
+                1.0e-9,
+                0.5,
+                1.0,
+                11.9,
+                down(12.0),
+                12.0,
+                up(12.0),
+                100.0,
+                1.0e6,
+                1.0e15,
+                1.0e30,
+                1.0e42,
+                // beyond today's bound (see Binomial)
+                up(1.0e42),
+                1.0e43,
+                1.0e100,
+                1.0e200,
+                1.0e300,
+                2.6e305,
+                5.0e305,
+                1.0e306,
+                1.0e308,
+                f64::MAX,
+            ]),
+        },
         8 => DistType::Weibull { scale: scale(r), shape: shape(r) },
         9 => DistType::Gamma { scale: scale(r), shape: shape(r) },
         _ => DistType::Beta { alpha: shape(r), beta: shape(r) },
@@ -75,7 +127,7 @@ fn gen_type(r: &mut Xo, fam: u64) -> DistType {
 
 const FAMILIES: [&str; 11] = ["Uniform", "Normal", "SkewNormal", "LogNormal", "Binomial", "Geometric", "Pareto", "Poisson", "Weibull", "Gamma", "Beta"];
 
-fn gen_dist(r: &mut Xo) -> (Dist, usize) {
+fn gen_dist(r: &mut Xo, rejected: &mut u64) -> (Dist, usize) {
     loop {
         let fam = r.below(11);
         let dt = gen_type(r, fam);
@@ -124,6 +176,7 @@ fn gen_dist(r: &mut Xo) -> (Dist, usize) {
         if d.validate().is_ok() {
             return (d, fam as usize);
         }
+        *rejected += 1;
     }
 }
 
@@ -177,7 +230,9 @@ impl Prop for C13 {
 
     fn run_case(&mut self, cx: &CaseCx, out: &mut Out) {
         let mut r = xo(cx.seed);
-        let (d, fam) = gen_dist(&mut r);
+        let mut rejected = 0;
+        let (d, fam) = gen_dist(&mut r, &mut rejected);
+        out.add("candidate_distributions_rejected_by_validation_(incl._parameters_beyond_the_bounds)", rejected);
         let max_prefix = if cx.tier == Tier::Quick { 8 } else { 64 };
         let plen = match r.below(4) {
             0 => 0,
